@@ -29,6 +29,7 @@ type SpecDB struct {
 	ifCF   map[string]*ContractFile
 	ufs    map[string]Sort
 	mirror []string // notes about /repo mirror state
+	local  map[string]*FnSpec // "<pkg>|ext <key>" / "<pkg>|iface <key>": a package's own declarations (preferred for its calls)
 	conflicts map[string]string // "ext <key>" / "iface <key>" -> description of a conflicting duplicate declaration
 }
 
@@ -85,6 +86,13 @@ func loadSpecDB() (*SpecDB, error) {
 		}
 		contractFileName := filepath.Base(p)
 		for k, s := range cf.Fns {
+			// a package's own ext/iface declarations take precedence for calls made from that package
+			if s.Kind == "ext" || s.Kind == "iface" {
+				if db.local == nil {
+					db.local = map[string]*FnSpec{}
+				}
+				db.local[pkg+"|"+s.Kind+" "+s.Key] = s
+			}
 			switch s.Kind {
 			case "ext":
 				if old, dup := db.ext[s.Key]; dup && old != s && specSig(old) != specSig(s) {
@@ -147,6 +155,13 @@ func (db *SpecDB) fnSpecOpt(fn *ssa.Function, callerPkg string) (*FnSpec, *Contr
 		}
 	}
 	key := funcKey(org)
+	if callerPkg != "" {
+		for _, k := range []string{pkgPath + "." + key, shortPkg(pkgPath) + "." + key} {
+			if s, ok := db.local[callerPkg+"|ext "+k]; ok {
+				return s, db.files[callerPkg]
+			}
+		}
+	}
 	if callerPkg != "" && callerPkg != pkgPath {
 		for _, k := range []string{pkgPath + "." + key, shortPkg(pkgPath) + "." + key} {
 			if _, bad := db.conflicts["ext "+k]; bad {
@@ -186,12 +201,15 @@ func namedOf(t types.Type) *types.Named {
 	return n
 }
 
-func (db *SpecDB) ifaceSpec(t types.Type, method string) (*FnSpec, *ContractFile) {
+func (db *SpecDB) ifaceSpec(t types.Type, method string, callerPkg string) (*FnSpec, *ContractFile) {
 	n := namedOf(t)
 	if n == nil || n.Obj().Pkg() == nil {
 		return nil, nil
 	}
 	key := n.Obj().Pkg().Name() + "." + n.Obj().Name() + "." + method
+	if s, ok := db.local[callerPkg+"|iface "+key]; ok {
+		return s, db.files[callerPkg]
+	}
 	if msg, bad := db.conflicts["iface "+key]; bad {
 		unsup("conflicting contracts: %s", msg)
 	}
